@@ -126,6 +126,15 @@ pub fn run_seed(scenario: Scenario, seed: u64, log: bool) -> RunResult {
     exec(scenario, ctx)
 }
 
+/// Like `run_seed`, but every draw is written to `path` as it happens.
+pub fn run_seed_recording(scenario: Scenario, seed: u64, path: &std::path::Path) -> RunResult {
+    let ctx = Ctx::from_seed(seed);
+    if let Ok(f) = std::fs::File::create(path) {
+        ctx.record_to(f);
+    }
+    exec(scenario, ctx)
+}
+
 pub fn run_trace(scenario: Scenario, trace: &Trace, log: bool) -> RunResult {
     let ctx = Ctx::from_trace(trace.clone());
     if log {
